@@ -26,14 +26,23 @@
 (*            C context variable).                                         *)
 (*  "inh"     a chain of templates, level d declares an inheritable        *)
 (*            namespace; every level >= d calls self.ns.p().               *)
+(*  "multins" one template (in directory a) declares 1..3 namespaces of      *)
+(*            different kinds (file A in a/b, file B in x, inline defs,     *)
+(*            module) in some order; a def `probe` of each observes its own *)
+(*            identity: self.sib(), local.uri, self.uri, self.attr.m, a     *)
+(*            relative URI resolved from inside the def, and a variable     *)
+(*            given to render().  Each namespace gets its OWN copy of the   *)
+(*            context (write_namespaces: context._clean_inheritance_tokens()*)
+(*            per namespace; TemplateNamespace.__init__ -> _populate_self_  *)
+(*            namespace writes self/local into that copy).                  *)
 (*  "include" an includer (alone, derived of a base, or base of a derived) *)
 (*            includes T (alone or inheriting TB) with args/context        *)
 (*            patterns for T's <%page args="a=0, b=0"/>.                   *)
 (***************************************************************************)
 EXTENDS UriPath
 CONSTANTS Tier            \* "quick" | "thorough": size of the enumerated scenario sets
-VARIABLES cfg, pc, hop, cur, memo, imp, sattr, out, phase
-vars == <<cfg, pc, hop, cur, memo, imp, sattr, out, phase>>
+VARIABLES cfg, pc, hop, cur, memo, imp, sattr, nsctx, out, phase
+vars == <<cfg, pc, hop, cur, memo, imp, sattr, nsctx, out, phase>>
 
 (* ------------------------------------------------------------------ the directory layouts *)
 Dirs == << <<>>, <<"a">>, <<"a", "b">>, <<"a", "b", "c">>, <<"x">> >>
@@ -105,10 +114,14 @@ Pat == {"args", "ctx", "both", "none"}
 IncConfigs ==
   {c \in [fam : {"include"}, pos : {"solo", "derived", "base"}, tgt : {"solo", "inherits"}, pa : Pat, pb : Pat, via : {"tag", "call"}] :
      c.tgt = "inherits" => (c.pa = "none" /\ c.pb = "none")}
-Configs == UriConfigs \cup NsConfigs \cup InhConfigs \cup IncConfigs
+NsKinds == {"fa", "fb", "inl", "mod"}
+Perms(n) == {q \in [1..n -> NsKinds] : \A i, j \in 1..n : i # j => q[i] # q[j]}
+MultiConfigs == {[fam |-> "multins", decl |-> d, assign |-> a, spell |-> sp] :
+                   d \in UNION {Perms(n) : n \in 1..3}, a \in BOOLEAN, sp \in {"rel", "abs"}}
+Configs == UriConfigs \cup NsConfigs \cup InhConfigs \cup IncConfigs \cup MultiConfigs
 
-InitWith(c) == /\ cfg = c /\ pc = 1 /\ hop = 1 /\ cur = <<>> /\ memo = {} /\ imp = {} /\ sattr = {} /\ out = <<>> /\ phase = "run"
-Init == /\ cfg \in Configs /\ pc = 1 /\ hop = 1 /\ cur = <<>> /\ memo = {} /\ imp = {} /\ sattr = {} /\ out = <<>> /\ phase = "run"
+InitWith(c) == /\ cfg = c /\ pc = 1 /\ hop = 1 /\ cur = <<>> /\ memo = {} /\ imp = {} /\ sattr = {} /\ nsctx = <<>> /\ out = <<>> /\ phase = "run"
+Init == /\ cfg \in Configs /\ pc = 1 /\ hop = 1 /\ cur = <<>> /\ memo = {} /\ imp = {} /\ sattr = {} /\ nsctx = <<>> /\ out = <<>> /\ phase = "run"
 
 (* ================================================================== family "uri" *)
 EntryUri(r) == Dirs[r.w] \o <<"w">>
@@ -132,7 +145,7 @@ Resolve ==
                 /\ IF root = 0 THEN /\ out' = Append(out, "exc|lookup") /\ nextreq
                    ELSE IF fname # "t" THEN /\ out' = out /\ hop' = 2 /\ cur' = looked /\ pc' = pc
                    ELSE /\ out' = Append(out, Marker(Norm(looked), root)) /\ nextreq
-  /\ UNCHANGED <<cfg, imp, sattr, phase>>
+  /\ UNCHANGED <<cfg, nsctx, imp, sattr, phase>>
 
 (* ================================================================== family "nsprec" *)
 Provider(c, x) == IF x \in c.I THEN "I" ELSE IF x \in c.F THEN "F" ELSE "ERR"      \* inline callables, then the file / module
@@ -140,7 +153,7 @@ Provider(c, x) == IF x \in c.I THEN "I" ELSE IF x \in c.F THEN "F" ELSE "ERR"   
 PopulateImports ==
   /\ phase = "run" /\ cfg.fam = "nsprec" /\ pc = 1
   /\ imp' = Imported(cfg) /\ pc' = 2
-  /\ UNCHANGED <<cfg, hop, cur, memo, sattr, out, phase>>
+  /\ UNCHANGED <<cfg, nsctx, hop, cur, memo, sattr, out, phase>>
 CallSeq == <<"p", "q">>
 Unqualified(c, x) == IF x \in imp THEN Provider(c, x) ELSE IF x \in c.C THEN "C" ELSE "ERR"  \* _import_ns.get(x, context.get(x, UNDEFINED))
 Calls ==
@@ -148,7 +161,7 @@ Calls ==
   /\ LET x == CallSeq[pc - 1] IN
      out' = out \o <<"call|ns." \o x, Provider(cfg, x) \o "|" \o x, "call|" \o x, Unqualified(cfg, x) \o "|" \o x>>
   /\ pc' = pc + 1
-  /\ UNCHANGED <<cfg, hop, cur, memo, imp, sattr, phase>>
+  /\ UNCHANGED <<cfg, nsctx, hop, cur, memo, imp, sattr, phase>>
 
 (* ================================================================== family "inh" *)
 (* linking runs _mako_generate_namespaces of every template of the chain, most derived first,   *)
@@ -157,14 +170,14 @@ GenNamespaces ==
   /\ phase = "run" /\ cfg.fam = "inh" /\ hop = 1 /\ pc <= cfg.N
   /\ LET lvl == cfg.N + 1 - pc IN sattr' = (IF lvl = cfg.d THEN sattr \cup {"ns"} ELSE sattr)
   /\ (IF pc = cfg.N THEN hop' = 2 /\ pc' = 1 ELSE hop' = 1 /\ pc' = pc + 1)
-  /\ UNCHANGED <<cfg, cur, memo, imp, out, phase>>
+  /\ UNCHANGED <<cfg, nsctx, cur, memo, imp, out, phase>>
 Bodies ==
   /\ phase = "run" /\ cfg.fam = "inh" /\ hop = 2 /\ pc <= cfg.N
   /\ out' = out \o <<"open|" \o ToString(pc)>>
             \o (IF pc >= cfg.d THEN <<"call|self.ns.p|" \o ToString(pc),
                                       IF "ns" \in sattr THEN (IF cfg.kind = "inline" THEN "I|p" ELSE "F|p") ELSE "ERR|p">> ELSE <<>>)
   /\ pc' = pc + 1
-  /\ UNCHANGED <<cfg, hop, cur, memo, imp, sattr, phase>>
+  /\ UNCHANGED <<cfg, nsctx, hop, cur, memo, imp, sattr, phase>>
 
 (* ================================================================== family "include" *)
 ArgVal(pat) == CASE pat \in {"args", "both"} -> 1 [] pat = "ctx" -> 2 [] pat = "none" -> 0   \* args first, context second, default
@@ -182,13 +195,37 @@ Include ==
               [] cfg.pos = "derived" -> <<"open|B", "open|D">> \o TargetTokens(cfg) \o <<"close|D", "close|B">>
               [] cfg.pos = "base" -> <<"open|B">> \o TargetTokens(cfg) \o <<"open|D", "close|D", "close|B">>
   /\ pc' = 2
-  /\ UNCHANGED <<cfg, hop, cur, memo, imp, sattr, phase>>
+  /\ UNCHANGED <<cfg, nsctx, hop, cur, memo, imp, sattr, phase>>
+
+(* ================================================================== family "multins" *)
+(* the template a namespace of that kind refers to: what self/local are inside its defs.  An inline def is *)
+(* written in the declaring template M itself; a module function has no self.                              *)
+OwnId(kind) == CASE kind = "fa" -> "A" [] kind = "fb" -> "B" [] kind = "inl" -> "M" [] kind = "mod" -> "none"
+Home(id) == CASE id = "A" -> <<"a", "b">> [] id = "B" -> <<"x">> [] id = "M" -> <<"a">> [] OTHER -> <<>>
+(* _mako_generate_namespaces: one namespace after the other, each constructed over its own stripped copy of *)
+(* the context; the constructor of a file namespace stores self/local in the copy it was given.            *)
+MakeNamespace ==
+  /\ phase = "run" /\ cfg.fam = "multins" /\ hop = 1 /\ pc <= Len(cfg.decl)
+  /\ nsctx' = Append(nsctx, [self |-> OwnId(cfg.decl[pc]), v |-> 7])
+  /\ (IF pc = Len(cfg.decl) THEN hop' = 2 /\ pc' = 1 ELSE hop' = 1 /\ pc' = pc + 1)
+  /\ UNCHANGED <<cfg, cur, memo, imp, sattr, out, phase>>
+(* what def probe of a namespace of `kind` prints when its context says self = id and v = val *)
+Observed(kind, id, val) ==
+  IF kind = "mod" THEN <<"probe|P", "ctx|" \o ToString(val)>>
+  ELSE <<"probe|" \o (IF kind = "inl" THEN "I" ELSE OwnId(kind)), "sib|" \o id, "uri|" \o id, "suri|" \o id, "attr|" \o id,
+         Marker(Home(id) \o <<"t">>, 1), "ctx|" \o ToString(val)>>
+Probe ==
+  /\ phase = "run" /\ cfg.fam = "multins" /\ hop = 2 /\ pc <= Len(cfg.decl)
+  /\ out' = out \o <<"call|" \o cfg.decl[pc]>> \o Observed(cfg.decl[pc], nsctx[pc].self, nsctx[pc].v)
+  /\ pc' = pc + 1
+  /\ UNCHANGED <<cfg, nsctx, hop, cur, memo, imp, sattr, phase>>
 
 Finished ==
   CASE cfg.fam = "uri" -> pc > Len(cfg.reqs) [] cfg.fam = "nsprec" -> pc > 3
     [] cfg.fam = "inh" -> hop = 2 /\ pc > cfg.N [] cfg.fam = "include" -> pc > 1
-Finish == /\ phase = "run" /\ Finished /\ phase' = "done" /\ UNCHANGED <<cfg, pc, hop, cur, memo, imp, sattr, out>>
-Next == Resolve \/ PopulateImports \/ Calls \/ GenNamespaces \/ Bodies \/ Include \/ Finish
+    [] cfg.fam = "multins" -> hop = 2 /\ pc > Len(cfg.decl)
+Finish == /\ phase = "run" /\ Finished /\ phase' = "done" /\ UNCHANGED <<cfg, nsctx, pc, hop, cur, memo, imp, sattr, out>>
+Next == Resolve \/ PopulateImports \/ Calls \/ GenNamespaces \/ Bodies \/ Include \/ MakeNamespace \/ Probe \/ Finish
 Spec == Init /\ [][Next]_vars
 
 (* ------------------------------------------------------------------ the property *)
@@ -217,6 +254,11 @@ InlineDefsWin == (Done /\ cfg.fam = "nsprec") => \A x \in cfg.I : "I|" \o x \in 
 ImportsBeforeContext == (Done /\ cfg.fam = "nsprec") =>
    \A k \in 1..Len(out) : \A x \in Names : (out[k] = "call|" \o x /\ x \in Imported(cfg)) => out[k + 1] \in {"I|" \o x, "F|" \o x}
 InheritableReachable == (Done /\ cfg.fam = "inh") => \A k \in 1..Len(out) : out[k] \notin {"ERR|p"}
+(* what a def of a namespace observes is what it observes when that namespace is the only one declared:  *)
+(* it does not depend on which other namespaces the template declares, nor on their order               *)
+RECURSIVE SoloSeq(_)
+SoloSeq(d) == IF d = <<>> THEN <<>> ELSE <<"call|" \o Head(d)>> \o Observed(Head(d), OwnId(Head(d)), 7) \o SoloSeq(Tail(d))
+NamespaceDefsKeepTheirOwnSelf == (Done /\ cfg.fam = "multins") => out = SoloSeq(cfg.decl)
 IncludeIndependent == (Done /\ cfg.fam = "include") =>
    \A k \in 1..Len(out) : /\ out[k] \in {"call|self.who", "call|local.who", "call|next.who"} => out[k + 1] \in {"who|T", "ERR"}
                           /\ out[k] = "call|parent.who" => out[k + 1] \in {"who|TB", "ERR"}
